@@ -1,12 +1,12 @@
 import TmcgProofs.Rabin
+import TmcgProps.C10Gen
 /-
   C10 — Rabin key operations are consistent and tamper-evident.  Property theorems only
   (statements copied from TmcgProofs/Rabin.lean, proofs by reference).
 
   The hash functions `tmcg_h` / `tmcg_g` are parameters (`Oracles`), arbitrary; `BlumKey K`:
   `m = p·q`, `p ≡ q ≡ 3 (mod 4)` distinct primes; `PreOk K P`: the precomputed CRT coefficients
-  (established by `precompute`, `precompute_ok`).  Key generation and the NIZK prover are not
-  modelled (keys come from the real constructor in the correspondence runs): partial.
+  (established by `precompute`, `precompute_ok`).  Key generation and the NIZK prover: TmcgProps/C10Gen.lean.
 -/
 namespace Tmcg.C10
 open Tmcg Tmcg.Rabin Tmcg.RabinProofs
